@@ -410,12 +410,51 @@ theorem execute_settled (l : Loop) (a : Addr) (hs : l.Settled) : (l.execute a).S
       · rfl
       · exact hs.queues x' hx
 
+theorem foldl_fixed {α β : Type} (f : α → β → α) (P : β → Prop) (hf : ∀ acc r, P r → f acc r = acc) :
+    ∀ (rs : List β), (∀ r ∈ rs, P r) → ∀ acc, rs.foldl f acc = acc := by
+  intro rs
+  induction rs with
+  | nil => intro _ acc; rfl
+  | cons r rest ih =>
+    intro hP acc
+    simp only [List.foldl_cons]
+    rw [hf acc r (hP r List.mem_cons_self)]
+    exact ih (fun x hx => hP x (List.mem_cons_of_mem _ hx)) acc
+
+/-- log catch-up on a settled fleet finds nothing to catch up with -/
+theorem progress_settled (l : Loop) (a : Addr) (all : Bool) (hs : l.Settled) :
+    (l.progress a all).Settled ∧ SameFleet l (l.progress a all) := by
+  unfold Loop.progress
+  cases hh : l.host? a with
+  | none => exact ⟨hs, sameFleet_refl l⟩
+  | some h0 =>
+    simp only
+    have hmem : h0 ∈ l.hosts := by unfold Loop.host? at hh; exact List.mem_of_find?_eq_some hh
+    rw [foldl_fixed _ (fun r => r ∈ h0.running) ?_ h0.running (fun r hr => hr) h0]
+    · have ha0 := host?_addr l a h0 hh
+      refine ⟨⟨hs.views, ?_, ?_, hs.noReqs, hs.noKill⟩, setHost_sameFleet l l a h0 h0 hh ha0 rfl rfl rfl⟩
+      · intro x hx rep hrep
+        rcases mem_setHost l _ x hx with rfl | hx'
+        · exact hs.running x hmem rep hrep
+        · exact hs.running x hx' rep hrep
+      · intro x hx
+        rcases mem_setHost l _ x hx with rfl | hx'
+        · exact hs.queues x hmem
+        · exact hs.queues x hx'
+    · intro acc r hr
+      obtain ⟨g, hg, _, hap, _⟩ := hs.running h0 hmem r hr
+      simp only [hg]
+      split
+      · rfl
+      · simp [hap]
+
 /-- the fault-free events of a settled fleet: the clock ticks, NodeHosts report (the reply may be lost), NodeHosts work
-    off their queues, and the leader runs scheduling rounds at moments when every member is classified healthy -/
+    off their queues, replicas catch up with their logs, and the leader runs scheduling rounds at moments when every member is classified healthy -/
 inductive QuietStep : Loop → Loop → Prop
   | tick (l : Loop) (db' : DB) (n : Nat) : l.db.applyTick = .ok (db', n) → QuietStep l { l with db := db' }
   | report (l l' : Loop) (a : Addr) (lost : Bool) (n : Nat) : l.report a lost = .ok (l', n) → QuietStep l l'
   | execute (l : Loop) (a : Addr) : QuietStep l (l.execute a)
+  | progress (l : Loop) (a : Addr) (all : Bool) : QuietStep l (l.progress a all)
   | schedule (l : Loop) (cx : Ctx) (draws rest : List Nat) (rs : List Request) (db' : DB) (n : Nat) :
       CtxExact l.db cx → l.db.AllHealthy → maintain cx draws = .ok rs rest → l.db.applyRequests rs = .ok (db', n) →
       QuietStep l { l with db := db' }
@@ -447,6 +486,7 @@ theorem quiet_step (l l' : Loop) (hs : l.Settled) (hq : QuietStep l l') : l'.Set
     obtain ⟨h1, _, h3⟩ := report_settled l l' a lost n hs h
     exact ⟨h1, h3⟩
   | execute a => exact execute_settled l a hs
+  | progress a all => exact progress_settled l a all hs
   | schedule cx draws rest rs db' n hcx hh hm hap =>
     have hrs : rs = [] := by
       have := healthy_round_is_empty l.db cx draws hcx hh hs.noKill
